@@ -443,6 +443,16 @@ def const_of(ctx, cls_name, suffix):
 	return None
 
 
+def snake_case(name):
+	"""TransferTransactionV1 -> transfer_transaction_v1 (the documented descriptor names are the class names in snake case)."""
+	out = ''
+	for index, char in enumerate(name):
+		if char.isupper() and index and not (name[index - 1].isupper()):
+			out += '_'
+		out += char.lower()
+	return out
+
+
 def oracle_valid(case, text, transaction):
 	"""Property on the implementation alone for a descriptor in documented forms. Returns a list of (signature kind, message)."""
 	ctx = ctx_of(case['net'], case['network'])
@@ -454,6 +464,9 @@ def oracle_valid(case, text, transaction):
 	if actual[1] != cls_name:
 		problems.append(('wrong-class', f'created {actual[1]}, expected {cls_name}'))
 		return problems
+	type_name = dict(case['desc'])['type']['s']
+	if snake_case(cls_name[len('Embedded'):] if cls_name.startswith('Embedded') else cls_name) != type_name:
+		problems.append(('type-name-class-mismatch', f'type name {type_name!r} creates an object of class {cls_name}'))
 	try:
 		expected = expect_struct(ctx, cls_name, case['desc'], top=True)
 	except Exception as ex:  # pylint: disable=broad-except
@@ -474,7 +487,12 @@ def oracle_valid(case, text, transaction):
 	if actual_members.get('network') != ctx.identifier:
 		problems.append(('network', f'network {actual_members.get("network")} is not the facade identifier {ctx.identifier}'))
 	encoded = text.split('|')[-1]
-	canonical = strictly_sorted(ctx, actual)
+	if problems:
+		return problems
+	try:
+		canonical = strictly_sorted(ctx, actual)
+	except Exception as ex:  # pylint: disable=broad-except
+		return [('created-object-ill-typed', f'the created object cannot be inspected ({type(ex).__name__}: {ex})')]
 	if not canonical:
 		if encoded.startswith('ok:'):
 			problems.append(('unordered-array-encoded', 'a keyed array that is not strictly ascending was serialized'))
@@ -645,6 +663,8 @@ class DescriptorGen:
 				return {'b': rb(rng, length).hex()}
 			element_type = field_type.element_type
 			length = field_type.size if isinstance(field_type.size, int) and not field_type.is_expandable else rng.choice([0, 0, 1, 2, 3])
+			if field_type.sort_key and rng.randrange(2):
+				length = rng.choice([2, 3, 4])
 			self.note(f'array:len{min(length, 3)}')
 			if f'array[{element_type}]' in self.ctx.rule_names:
 				items = [self.named(element_type, path + [field.name]) for _ in range(length)]
@@ -967,6 +987,20 @@ CORNERS = [
 	{'net': 'symbol', 'network': 'testnet', 'entry': 'top', 'autosort': True, 'desc': [
 		['type', {'s': 'mosaic_definition_transaction_v1'}], ['signer_public_key', {'b': '11' * 32}], ['nonce', {'i': 123}],
 		['flags', {'s': 'supply_mutable restrictable transferable revokable'}]]},
+	{'net': 'nem', 'network': 'testnet', 'entry': 'top', 'autosort': True, 'desc': [
+		['type', {'s': 'multisig_account_modification_transaction_v2'}], ['min_approval_delta', {'i': 1}],
+		['modifications', {'l': [
+			{'d': [['modification', {'d': [['modification_type', {'s': 'delete_cosignatory'}],
+				['cosignatory_public_key', {'s': 'D79936328C188A4416224ABABF580CA2C5C8D852248DB1933FE4BC0DCA0EE7BC'}]]}]]},
+			{'d': [['modification', {'d': [['modification_type', {'s': 'add_cosignatory'}],
+				['cosignatory_public_key', {'s': '5D378657691CAD70CE35A46FB88CB134232B0B6B3655449C019A1F5F20AE9AAD'}]]}]]}]}]]},
+	{'net': 'nem', 'network': 'testnet', 'entry': 'top', 'autosort': False, 'desc': [
+		['type', {'s': 'multisig_account_modification_transaction_v1'}],
+		['modifications', {'l': [
+			{'d': [['modification', {'d': [['modification_type', {'s': 'delete_cosignatory'}],
+				['cosignatory_public_key', {'s': 'D79936328C188A4416224ABABF580CA2C5C8D852248DB1933FE4BC0DCA0EE7BC'}]]}]]},
+			{'d': [['modification', {'d': [['modification_type', {'s': 'add_cosignatory'}],
+				['cosignatory_public_key', {'s': '5D378657691CAD70CE35A46FB88CB134232B0B6B3655449C019A1F5F20AE9AAD'}]]}]]}]}]]},
 	{'net': 'nem', 'network': 'testnet', 'entry': 'top', 'autosort': True, 'desc': [
 		['type', {'s': 'transfer_transaction_v2'}], ['message', {'d': [['message_type', {'s': 'plain'}], ['message', {'s': 'You miss 100%% of the shots you don’t take'}]]}]]},
 ]
